@@ -158,6 +158,15 @@ extern "C" void sym_body()
         SYM_CHECK(ok, "shuffled(feature) is a bijection of the samples");
     }
     check_views(sh, f0, -1, "(after shuffle)");
+    // multi-step sequences on the same feature: drop while shuffled, undo in both orders, shuffle while dropped
+    ds.drop(f0);
+    check_views(samples, -1, f0, "(drop of a shuffled feature)");
+    ds.undrop();
     ds.unshuffle();
-    check_views(samples, -1, -1, "(after unshuffle)");
+    check_views(samples, -1, -1, "(after undrop + unshuffle)");
+    ds.drop(f0);
+    ds.shuffle(f0);
+    ds.unshuffle();
+    ds.undrop();
+    check_views(samples, -1, -1, "(after drop, shuffle, unshuffle, undrop)");
 }
